@@ -4,7 +4,12 @@ package main
 // their messages in two segments at the same time (so that their readers hold read buffers
 // simultaneously); every handler must be given the bytes of its own connection (C15).
 //
-//   conn xtalk k=<healthy> f=<faulty per round> rounds=<r> => c0=ok c1=ok ... | faults=<closed>/<n>
+//   conn xtalk k=<healthy> f=<faulty per round> rounds=<r> [fk=<kind>] [big=1] => c0=ok c1=ok ... | faults=<closed>/<n>
+//
+// fk: what the faulty peers send - 0 a complete frame whose AVP cannot be decoded, 1 a header that
+// declares a body over 64 KiB, a few bytes of it and then EOF, 2 the same with the EOF after 70000
+// bytes, 3 only a header and EOF, 4 a mix by index.  big=1: the healthy messages are themselves
+// larger than 64 KiB.
 
 import (
 	"fmt"
@@ -26,6 +31,12 @@ func execConnXtalk(toks []string) string {
 	K, _ := strconv.Atoi(kS)
 	F, _ := strconv.Atoi(fS)
 	R, _ := strconv.Atoi(rS)
+	fk := 0
+	if v, ok := kvGet(toks, "fk"); ok {
+		fk, _ = strconv.Atoi(v)
+	}
+	bigS, _ := kvGet(toks, "big")
+	big := bigS == "1"
 	if K < 1 || R < 1 {
 		return "badinput"
 	}
@@ -62,8 +73,28 @@ func execConnXtalk(toks []string) string {
 				continue
 			}
 			waitFor(fc.readerParked, time.Second)
-			body := rawAVP(264, 0x40, 0, 40, []byte("faulty-peer"), true) // declares 40, carries 19+pad
-			fc.deliver(append(rawHeader(20+len(body), 0x80, 280, 0, uint32(900000+r*100+j), 1), body...))
+			kind := fk
+			if fk == 4 {
+				kind = (r + j) % 4
+			}
+			hbh := uint32(900000 + r*100 + j)
+			switch kind {
+			case 1, 2: // a large body that never arrives in full
+				have := 100 + 37*j
+				if kind == 2 {
+					have = 70000 + j
+				}
+				fc.deliver(append(rawHeader(20+90000+j*4, 0x80, 280, 0, hbh, 1), make([]byte, have)...))
+				waitFor(fc.readerParked, time.Second)
+				fc.peerEOF()
+			case 3:
+				fc.deliver(rawHeader(20+400, 0x80, 280, 0, hbh, 1))
+				waitFor(fc.readerParked, time.Second)
+				fc.peerEOF()
+			default:
+				body := rawAVP(264, 0x40, 0, 40, []byte("faulty-peer"), true) // declares 40, carries 19+pad
+				fc.deliver(append(rawHeader(20+len(body), 0x80, 280, 0, hbh, 1), body...))
+			}
 			nfault++
 			if waitFor(fc.isClosed, time.Second) {
 				nclosed++
@@ -74,7 +105,7 @@ func execConnXtalk(toks []string) string {
 		var msgs []half
 		for i := range conns {
 			id := uint32(1000*(r+1) + i)
-			host := fmt.Sprintf("conn-%02d-round-%d.%s", i, r, strings.Repeat(string(rune('a'+i%26)), 40+i))
+			host := fmt.Sprintf("conn-%02d-round-%d.%s", i, r, strings.Repeat(string(rune('a'+i%26)), xtalkPad(big, i)))
 			msg := simpleMsg(280, 0x80, 0, id, id, diam.NewAVP(264, 0x40, 0, datatype.DiameterIdentity(host)),
 				diam.NewAVP(296, 0x40, 0, datatype.DiameterIdentity("realm")))
 			cut := 20 + 8 + (i % 7)
@@ -91,8 +122,8 @@ func execConnXtalk(toks []string) string {
 		}
 		for i, mc := range conns {
 			id := uint32(1000*(r+1) + i)
-			want := fmt.Sprintf("conn-%02d-round-%d.%s", i, r, strings.Repeat(string(rune('a'+i%26)), 40+i))
-			ok := waitFor(func() bool { mu.Lock(); defer mu.Unlock(); _, seen := got[id]; return seen || mc.isClosed() }, time.Second)
+			want := fmt.Sprintf("conn-%02d-round-%d.%s", i, r, strings.Repeat(string(rune('a'+i%26)), xtalkPad(big, i)))
+			ok := waitFor(func() bool { mu.Lock(); defer mu.Unlock(); _, seen := got[id]; return seen || mc.isClosed() }, 2*time.Second)
 			mu.Lock()
 			v, seen := got[id]
 			mu.Unlock()
@@ -122,11 +153,22 @@ func execConnXtalk(toks []string) string {
 	return strings.Join(outs, " ") + fmt.Sprintf(" | faults=%d/%d", nclosed, nfault)
 }
 
+func xtalkPad(big bool, i int) int {
+	if big {
+		return 66000 + 1000*i
+	}
+	return 40 + i
+}
+
 func init() {
 	executors["conn xtalk"] = execConnXtalk
 	connGens["xtalk"] = func(r *RNG, n int, op string, emit func(string)) {
 		for i := 0; i < n; i++ {
-			emit(fmt.Sprintf("conn xtalk k=%d f=%d rounds=%d seq=%d", 4+r.Intn(13), 1+r.Intn(4), 2+r.Intn(3), i))
+			if i%2 == 0 {
+				emit(fmt.Sprintf("conn xtalk k=%d f=%d rounds=%d seq=%d", 4+r.Intn(13), 1+r.Intn(4), 2+r.Intn(3), i))
+			} else {
+				emit(fmt.Sprintf("conn xtalk k=%d f=%d rounds=%d fk=%d big=%d seq=%d", 2+r.Intn(7), 1+r.Intn(5), 2+r.Intn(3), 1+r.Intn(4), r.Intn(2), i))
+			}
 		}
 	}
 }
